@@ -4,6 +4,7 @@ import os
 import random
 import re
 import socket
+import ssl
 import subprocess
 import threading
 import time
@@ -72,9 +73,18 @@ def client_stream(rng, kind):
     return b"".join(parts)
 
 
-def session(ctx, binary, n, rng, kind):
+def session(ctx, binary, n, rng, kind, cert=None):
+    """kind: what the client sends (client_stream) - or one of the end-of-session kinds:
+       close      plain TCP; the client sends everything in one go and closes at once
+       tls12close the same through the TLS proxy with TLS 1.2 on both legs (data and close_notify arrive together)
+       tls13      an ordinary session through the TLS proxy (TLS 1.3)"""
     d = ctx.path("sess%d" % n)
     os.makedirs(d)
+    tls = kind.startswith("tls")
+    closing = kind.endswith("close")
+    skind = kind
+    if tls or closing:
+        kind = rng.choice(["valid", "mixed", "html"])
     up = socket.socket()
     up.setsockopt(socket.SOL_SOCKET, socket.SO_REUSEADDR, 1)
     up.bind(("127.0.0.1", 0))
@@ -85,11 +95,12 @@ def session(ctx, binary, n, rng, kind):
     with open(cfg, "w") as f:
         json.dump({"remote_host": "127.0.0.1:%d" % up_port, "proxy_host": "127.0.0.1", "proxy_port": pport,
                    "control_host": "127.0.0.1", "control_port": cport, "record_messages": True,
-                   "message_log_directory": os.path.join(d, "msglog")}, f)
+                   "message_log_directory": os.path.join(d, "msglog"),
+                   "tls": {"country": ["GB"], "org": ["verif"], "common_name": "localhost"}}, f)
     errf = open(os.path.join(d, "stderr"), "wb")
     outf = open(os.path.join(d, "stdout"), "wb")
-    p = subprocess.Popen([binary, "-c", cfg], cwd=d, stdout=outf, stderr=errf)
-    ev = dict(kind=kind, alive=True, stalled=False, report_ok=False, report_msgs=[], slot_client=[], slot_server=[], slot_messages=[])
+    p = subprocess.Popen([binary] + (["-s"] if tls else []) + ["-c", cfg], cwd=d, stdout=outf, stderr=errf)
+    ev = dict(kind=skind, alive=True, stalled=False, report_ok=False, report_msgs=[], slot_client=[], slot_server=[], slot_messages=[])
     c2s = client_stream(rng, kind)
     s2c = b"ICY 200 OK\r\n\r\n" + bytes(rng.getrandbits(8) for _ in range(rng.randint(0, 300))) + rng.choice(HTML) if kind != "random" else bytes(rng.getrandbits(8) for _ in range(rng.randint(1, 3000)))
     ev["c2s"], ev["s2c"] = list(c2s), list(s2c)
@@ -109,6 +120,22 @@ def session(ctx, binary, n, rng, kind):
             raise vlib.Inconclusive("cannot connect to the proxy (exit %s): %s" % (p.poll(), open(os.path.join(d, "stderr"), "rb").read()[-500:]))
         up.settimeout(10)
         srv, _ = up.accept()
+        if tls:
+            # the proxy dials the upstream server with TLS as soon as it has accepted the client, and only then
+            # reads from (i.e. shakes hands with) the client: serve that handshake first, then do the client's
+            sctx = ssl.SSLContext(ssl.PROTOCOL_TLS_SERVER)
+            sctx.load_cert_chain(cert + ".pem", cert + ".key")
+            cctx = ssl.SSLContext(ssl.PROTOCOL_TLS_CLIENT)
+            cctx.check_hostname = False
+            cctx.verify_mode = ssl.CERT_NONE
+            if "12" in skind:
+                sctx.maximum_version = ssl.TLSVersion.TLSv1_2
+                cctx.maximum_version = ssl.TLSVersion.TLSv1_2
+            srv.settimeout(10)
+            cli.settimeout(10)
+            srv = sctx.wrap_socket(srv, server_side=True)
+            cli = cctx.wrap_socket(cli)
+            ev["tls_versions"] = [cli.version(), srv.version()]
         srv.settimeout(0.2)
         cli.settimeout(0.2)
 
@@ -138,22 +165,69 @@ def session(ctx, binary, n, rng, kind):
                     if not b:
                         return
                     buf.extend(b)
-                except socket.timeout:
+                except (socket.timeout, ssl.SSLWantReadError):
                     continue
                 except OSError:
                     return
 
+        def send_and_close(sock, data):
+            # the last bytes of the session and the end of the session arrive together
+            try:
+                sock.settimeout(5)
+                if tls:
+                    # data record and close_notify leave in one piece (TCP_CORK), so the proxy's TLS layer finds the
+                    # end of the session right behind the last bytes
+                    sock.setsockopt(socket.IPPROTO_TCP, socket.TCP_CORK, 1)
+                    sock.sendall(data)
+                    threading.Timer(0.03, lambda: sock.setsockopt(socket.IPPROTO_TCP, socket.TCP_CORK, 0)).start()
+                    try:
+                        sock.unwrap()
+                    except (OSError, ssl.SSLError):
+                        pass
+                else:
+                    sock.sendall(data)
+                    sock.shutdown(socket.SHUT_WR)
+            except OSError:
+                pass
+
         stop = threading.Event()
-        ts = [threading.Thread(target=pump, args=(cli, c2s, rng.getrandbits(30))),
+        if closing:
+            # first the server's greeting reaches the client, then the client says everything at once and leaves;
+            # in every second such session it is the server that speaks last and leaves
+            server_leaves = rng.random() < 0.5
+            first, last = (c2s, s2c) if server_leaves else (s2c, c2s)
+            a, b = (cli, srv) if server_leaves else (srv, cli)
+            a_got, b_got = (s_got, c_got) if server_leaves else (c_got, s_got)
+            t1 = threading.Thread(target=pump, args=(a, first, rng.getrandbits(30)))
+            t2 = threading.Thread(target=drain, args=(b, a_got, len(first), stop))
+            t1.start(); t2.start()
+            deadline = time.time() + 20
+            while time.time() < deadline and len(a_got) < len(first) and p.poll() is None:
+                time.sleep(0.01)
+            t1.join(5)
+            t3 = threading.Thread(target=drain, args=(a, b_got, len(last), stop))
+            t3.start()
+            send_and_close(b, last)
+            deadline = time.time() + 20
+            while time.time() < deadline and len(b_got) < len(last) and p.poll() is None and t3.is_alive():
+                time.sleep(0.01)
+            time.sleep(0.3)
+            ev["stalled"] = False      # the session has ended: what has not arrived by now never will
+            ev["server_leaves"] = server_leaves
+            stop.set()
+            t2.join(5); t3.join(5)
+            ts = []
+        ts = [] if closing else [threading.Thread(target=pump, args=(cli, c2s, rng.getrandbits(30))),
               threading.Thread(target=pump, args=(srv, s2c, rng.getrandbits(30))),
               threading.Thread(target=drain, args=(srv, s_got, len(c2s), stop)),
               threading.Thread(target=drain, args=(cli, c_got, len(s2c), stop))]
         for t in ts:
             t.start()
         deadline = time.time() + 20
-        while time.time() < deadline and (len(s_got) < len(c2s) or len(c_got) < len(s2c)) and p.poll() is None:
+        while not closing and time.time() < deadline and (len(s_got) < len(c2s) or len(c_got) < len(s2c)) and p.poll() is None:
             time.sleep(0.01)
-        ev["stalled"] = (len(s_got) < len(c2s) or len(c_got) < len(s2c)) and p.poll() is None
+        if not closing:
+            ev["stalled"] = (len(s_got) < len(c2s) or len(c_got) < len(s2c)) and p.poll() is None
         time.sleep(0.15)    # quiescence: let a surplus byte or the queue update show up
         stop.set()
         for t in ts:
@@ -229,11 +303,14 @@ def run(ctx, replay):
         raise vlib.Inconclusive("Proxy.tla with a crashing parser should violate StaysAlive (vacuity guard)")
     binary = build_binary(ctx, "proxy")
     rng = random.Random(ctx.seed * 104729 + 19)
-    kinds = ["valid", "malformed", "html", "random", "mixed", "many", "bulk", "burst", "bigburst", "bulk", "mixed", "html", "burst"]
-    nsess = 65 if ctx.thorough() else 13
+    kinds = ["valid", "malformed", "html", "random", "mixed", "many", "bulk", "burst", "bigburst", "bulk", "mixed", "html", "burst",
+             "close", "tls12close", "tls13", "tls12close", "close"]
+    nsess = 90 if ctx.thorough() else 18
+    cert = ctx.path("upstream")
+    ctx.drive(ctx.build_harness(), ["gencert", cert])
     events = []
     for n in range(nsess):
-        events.append(session(ctx, binary, n, rng, kinds[n % len(kinds)]))
+        events.append(session(ctx, binary, n, rng, kinds[n % len(kinds)], cert))
     trace = ctx.path("c19.ndjson")
     vlib.write_ndjson(trace, [{k: v for k, v in e.items() if k not in ("crash", "report_error", "kind")} for e in events])
     res = ctx.tlc_trace("C19_Trace", "C19_Trace.cfg", trace, timeout=1500)
